@@ -18,10 +18,11 @@ type virtualOps struct{ v *outkit.VirtualRoot }
 
 func (o virtualOps) materialize(n *outkit.Node) error { return outkit.MaterializeVirtual(o.v.Root, n) }
 func (o virtualOps) snapshot() (*outkit.Node, error)  { return outkit.SnapshotVirtual(o.v.Root) }
+func (o virtualOps) remove(loc []string) error        { return outkit.RemoveVirtual(o.v.Root, loc) }
 
-func (virtualBackend) open(h *harness, cas *outkit.Store) (builder.BuildDirectory, rootOps, func()) {
+func (virtualBackend) open(h *harness, cas *outkit.Store, plan *outkit.Plan) (builder.BuildDirectory, rootOps, func()) {
 	v := outkit.NewVirtualRoot(outkit.NewDirectoryFetcher(), cas, vclock.New(1_700_000_000), true)
-	return v.BuildDirectory, virtualOps{v}, func() {
+	return outkit.NewFaultyBuildDirectory(v.BuildDirectory, plan, &outkit.FaultyDirStats{}), virtualOps{v}, func() {
 		v.Root.RemoveAllChildren(true)
 		if errs := v.Errors.Errors(); len(errs) > 0 {
 			panic(fmt.Sprintf("harness: virtual file system logged errors: %v", errs))
